@@ -101,9 +101,16 @@ def theorems_of(prop: str):
     return names
 
 
+def top_module(prop: str) -> str:
+    """Props/<prop>x.lean, when present, is the property's EXTENSION module: theorems that combine this
+    property's model with another property's Props (which Props/<prop>.lean cannot import without a cycle).
+    It imports Props/<prop>.lean; its theorems are audited obligations like the others."""
+    return f"UxVerif.Props.{prop}x" if (LEAN / "UxVerif" / "Props" / f"{prop}x.lean").exists() else f"UxVerif.Props.{prop}"
+
+
 def lean_files_for(prop: str):
-    """Transitive local imports of Props/<prop>.lean (for the forbidden-token audit)."""
-    seen, todo = set(), [f"UxVerif.Props.{prop}"]
+    """Transitive local imports of the property's top module (for the forbidden-token audit)."""
+    seen, todo = set(), [top_module(prop), f"UxVerif.Props.{prop}"]
     while todo:
         mod = todo.pop()
         if mod in seen:
@@ -162,8 +169,8 @@ def prepare_lean(prop: str, thorough: bool = False) -> LeanState:
         rc, log = _run(["lake", "build", f"drv_{prop.lower()}"], cwd=LEAN)
         st.driver_ok = rc == 0
         st.build_log += log if rc else ""
-        st.obligations = theorems_of(prop)
-        rc, log = _run(["lake", "build", f"UxVerif.Props.{prop}"], cwd=LEAN)
+        st.obligations = theorems_of(prop) + (theorems_of(prop + "x") if top_module(prop).endswith("x") else [])
+        rc, log = _run(["lake", "build", top_module(prop)], cwd=LEAN)
         st.build_ok = rc == 0
         if rc:
             st.build_log += log
@@ -175,7 +182,7 @@ def prepare_lean(prop: str, thorough: bool = False) -> LeanState:
         if st.build_ok:
             audit = LEAN / f".audit_{prop}.lean"
             audit.write_text(
-                f"import UxVerif.Props.{prop}\n"
+                f"import {top_module(prop)}\n"
                 + "".join(f"#print axioms {n}\n" for n in st.obligations)
             )
             rc, log = _run(["lake", "env", "lean", audit.name], cwd=LEAN)
@@ -200,11 +207,11 @@ def prepare_lean(prop: str, thorough: bool = False) -> LeanState:
                     st.discharged.append(n)
             if thorough:
                 rc, log = _run(
-                    ["lake", "env", "leanchecker", f"UxVerif.Props.{prop}"], cwd=LEAN, timeout=3000
+                    ["lake", "env", "leanchecker", top_module(prop)], cwd=LEAN, timeout=3000
                 )
                 st.leanchecker = "ok" if rc == 0 else "FAILED: " + log[-400:]
                 if rc != 0:
-                    st.broken.append("leanchecker rejected UxVerif.Props." + prop)
+                    st.broken.append("leanchecker rejected " + top_module(prop))
         else:
             # which theorem broke: first error line of the build log
             errs = re.findall(r"error: (\S+\.lean:\d+:\d+): (.*)", st.build_log)
